@@ -59,6 +59,8 @@ pub enum Kind {
     Unsigned { from: bool, seqno: bool },
     /// from = key A, signature (and key field) by key B
     Forged,
+    /// no signature; `from` is arbitrary bytes (almost never a PeerId); seqno present or not
+    UnsignedRawFrom { from: Vec<u8>, seqno: bool },
 }
 
 #[derive(Clone, Debug, Serialize, Deserialize)]
@@ -94,7 +96,8 @@ fn strategy() -> impl Strategy<Value = Case> {
         6 => Just(Kind::Signed),
         2 => Just(Kind::RealPublish),
         2 => (any::<bool>(), any::<bool>()).prop_map(|(from, seqno)| Kind::Unsigned { from, seqno }),
-        1 => Just(Kind::Forged),
+        2 => Just(Kind::Forged),
+        1 => (proptest::collection::vec(any::<u8>(), 1..40), any::<bool>()).prop_map(|(from, seqno)| Kind::UnsignedRawFrom { from, seqno }),
     ];
     let muts = prop_oneof![
         2 => Just(vec![]),
@@ -306,6 +309,14 @@ fn check(case: &Case) -> Outcome {
             signature: None,
             key: None,
         },
+        Kind::UnsignedRawFrom { from, seqno } => pb::Message {
+            from: Some(from.clone()),
+            data: Some(case.data.clone()),
+            seqno: seqno.then(|| case.seqno.to_be_bytes().to_vec()),
+            topic: topic.to_string(),
+            signature: None,
+            key: None,
+        },
         Kind::Forged => {
             // B signs a message that claims to come from A and ships B's key
             let mut m = sign(other_key, &me, &case.data, case.seqno, topic);
@@ -377,7 +388,7 @@ fn check(case: &Case) -> Outcome {
             }
             // second sentence of the statement: mutations of a signed message
             let sig_or_key_broke = changed.iter().any(|f| matches!(f, Field::Signature | Field::Key)) && !auth;
-            let must_be_invalid = (signed_kind && (content_changed || sig_or_key_broke)) || matches!(case.kind, Kind::Forged | Kind::Unsigned { .. });
+            let must_be_invalid = (signed_kind && (content_changed || sig_or_key_broke)) || matches!(case.kind, Kind::Forged | Kind::Unsigned { .. } | Kind::UnsignedRawFrom { .. });
             if must_be_invalid {
                 ensure!(!valid, "C30:strict-accepted-mutated-or-unsigned", detail());
             }
@@ -425,7 +436,27 @@ fn check(case: &Case) -> Outcome {
         Kind::RealPublish => "k:real-publish",
         Kind::Unsigned { .. } => "k:unsigned",
         Kind::Forged => "k:forged",
+        Kind::UnsignedRawFrom { .. } => "k:unsigned-raw-from",
     });
+    // classes of adversarial shapes (measured, not asserted): a foreign key shipped in the key field
+    // with a signature that verifies under it; a source without a sequence number
+    let key_is_foreign = match (m.key.as_ref().and_then(|k| PublicKey::try_decode_protobuf(k).ok()), m.from.as_ref().and_then(|f| PeerId::from_bytes(f).ok())) {
+        (Some(pk), Some(src)) => pk.to_peer_id() != src && m.signature.as_ref().is_some_and(|sig| pk.verify(&wire::signing_bytes(m.from.as_deref(), m.data.as_deref(), m.seqno.as_deref(), &m.topic), sig)),
+        _ => false,
+    };
+    if key_is_foreign {
+        labels.push(match case.mode {
+            0 => "strict:verifies-under-foreign-key-in-key-field",
+            1 => "permissive:verifies-under-foreign-key-in-key-field",
+            _ => "other-mode:verifies-under-foreign-key-in-key-field",
+        });
+    }
+    if m.from.as_ref().is_some_and(|f| !f.is_empty()) && m.seqno.is_none() {
+        labels.push("from-without-seqno");
+        if case.mode == 1 && m.signature.is_none() && !from_ok(false) {
+            labels.push("permissive:unsigned-malformed-from-without-seqno");
+        }
+    }
     labels.push(match ki {
         0..=3 => "key:ed25519",
         4..=6 => "key:secp256k1",
@@ -451,7 +482,7 @@ pub fn run(ctx: &mut Ctx) {
     ctx.assume("a mutation of signature/key that leaves the message authentic under the statement's own predicate (e.g. an undecodable key field next to an inlined key) is classified, not asserted");
     ctx.check::<Case>(
         "modes",
-        "a message (reference-signed with ed25519/secp256k1/ecdsa/rsa, real-publish-signed, unsigned, or forged with another key) with 0..3 field mutations (flip/drop/empty/swap/truncate/append on from/data/seqno/topic/signature/key) decoded under Strict/Permissive/Anonymous/None; non-trivial = exactly one field effectively changed",
+        "a message (reference-signed with ed25519/secp256k1/ecdsa/rsa, real-publish-signed, unsigned with/without from and seqno, unsigned with arbitrary from bytes, or re-signed by another key that is shipped in the key field) with 0..3 field mutations (flip/drop/empty/swap/truncate/append on from/data/seqno/topic/signature/key) decoded under Strict/Permissive/Anonymous/None; non-trivial = exactly one field effectively changed",
         ctx.n(60_000, 1_500_000),
         &|| strategy().boxed(),
         &check,
